@@ -154,8 +154,9 @@ namespace Givaro {
 
     template<class Domain>
     inline typename Poly1Dom<Domain,Dense>::Rep& Poly1Dom<Domain,Dense>::assign
-    ( Rep& P, const Degree d, const Type_t& lcoeff ) const
+    ( Rep& P, const Degree d, const Type_t& lcoeff0 ) const
     {
+        const Type_t lcoeff(lcoeff0); // lcoeff0 may be a coefficient of the destination
         long deg = value(d);
         if (_domain.isZero(lcoeff)) {
             P.resize(0);
